@@ -97,6 +97,11 @@ namespace {
             "form=intrusive;family=SplitListSet;bucket=IterableList;hook=split_list::node<void>;order=less;hash=mix;counter=on;ctor=4,1" );
         reg<EnvDHP, ci::SplitListSet<DHP, ci::IterableList<DHP, SItem, il_cmp_stat>, sl<hash_mod<4>>>, caps_it, mk2<4, 1>>( "I_SplitListSet_Iterable_DHP_cmp_stat_hashmod4", true, true,
             "form=intrusive;family=SplitListSet;bucket=IterableList;hook=split_list::node<void>;order=compare;hash=mod4(colliding);counter=on;stat=on;ctor=4,1" );
+        // multi-segment bucket table: a second block of auxiliary bucket nodes gets allocated
+        reg<EnvHP, ci::SplitListSet<HP, mlist<HP, N<HP>::sm>::base_cmp, sl<hash_id>>, caps_l, mk2<4096, 1>>( "I_SplitListSet_Michael_HP_base_cmp_hashid_4096x1", true, false,
+            "form=intrusive;family=SplitListSet;bucket=MichaelList;hook=base;order=compare;hash=identity;counter=on;ctor=4096,1;bucket_table=dynamic(multi-segment)" );
+        reg<EnvGPB, ci::SplitListSet<GPB, mlist<GPB, N<GPB>::sm>::base_less, sl<hash_mix>>, caps_l, mk2<8192, 2>>( "I_SplitListSet_Michael_RCU_GPB_base_less_hashmix_8192x2", true, false,
+            "form=intrusive;family=SplitListSet;bucket=MichaelList;hook=base;order=less;hash=mix;counter=on;ctor=8192,2;bucket_table=dynamic(multi-segment)" );
     }
 }
 C20_MAIN( register_all )
